@@ -1,4 +1,5 @@
 import Jrpc.Model.Discipline
+import Jrpc.Model.Wire
 /-! # C10 — channel discipline: one sender, one receiver, no Send/Close overlap -/
 namespace Jrpc.Props.C10
 open Jrpc.Discipline
@@ -122,5 +123,42 @@ theorem op_under_lock (r : Nat) (es : List Ev) (s : St) (hr : run { reader := r 
 -- non-vacuity: a legal interleaving, and an unserialised Send refused by the guards
 example : (run { reader := 9 } [.recvBegin 9, .lock 1, .opBegin 1 .send, .opEnd 1 .send, .unlock 1, .lock 2, .opBegin 2 .close]).isSome = true := by decide
 example : run { reader := 9 } [.lock 1, .opBegin 1 .send, .opBegin 2 .send] = none := by decide
+
+/-! ### the reply to a callback is always a whole message (finding F18) -/
+
+open Jrpc.Wire in
+/-- whatever the `OnCallback` handler returned - a result, an error, an error whose data is not
+JSON - the record handed to `Send` is the text of one reply object: it begins with
+`{"jsonrpc":"2.0"` and ends with `}`; in particular it is never empty -/
+theorem callback_reply_is_message (id : Jrpc.Json.Bytes) (o : ReplyOutcome) :
+    ∃ m : OutMsg, callbackReplyBytes id o = toJSON m ∧ m.id = id ∧
+      callbackReplyBytes id o ≠ [] := by
+  unfold callbackReplyBytes
+  cases o with
+  | result r =>
+    refine ⟨{ id := id, r := r, batch := false }, by simp [sanitizeOutcome, replyMsg], rfl, ?_⟩
+    simp [sanitizeOutcome, replyMsg, toJSON, prefixLit]
+  | error e =>
+    have hs : (marshalError (sanitizeError e)).isSome = true := by
+      unfold sanitizeError marshalError
+      by_cases h : e.data.length ≠ 0 ∧ Jrpc.Json.valid e.data = false
+      · simp [h]
+      · simp only [h, if_false]
+        by_cases hd : e.data = []
+        · simp [hd]
+        · have hl : e.data.length ≠ 0 := by simpa using hd
+          have hv : Jrpc.Json.valid e.data = true := by
+            cases hb : Jrpc.Json.valid e.data with
+            | true => rfl
+            | false => exact absurd ⟨hl, hb⟩ h
+          simp [hv]
+    obtain ⟨t, ht⟩ := Option.isSome_iff_exists.mp hs
+    refine ⟨{ id := id, e := some t, batch := false }, by simp [sanitizeOutcome, replyMsg, ht], rfl, ?_⟩
+    simp [sanitizeOutcome, replyMsg, ht, toJSON, prefixLit]
+
+-- the mechanism of F18: without the sanitising step the reply to such a failure is the empty record
+open Jrpc.Wire in
+example : (match replyMsg [49] false (.error { code := 9, msg := [120], data := [123, 34] }) with
+    | some m => toJSON m | none => []) = [] := by decide
 
 end Jrpc.Props.C10
